@@ -346,7 +346,7 @@ fn gen_statements(fields: &Fields, encoding: Encoding) -> syn::Result<proc_macro
                     }
                 }
             } else {
-                let mut __i777 = 0;
+                let mut __i777 = 0u64;
                 while minicbor::data::Type::Break != __d777.datatype()? {
                     match __i777 {
                         #(#indices => #actions)*
